@@ -519,15 +519,17 @@ pub fn run_c10(args: &Args, tier: &str, seed: u64) -> Report {
                     }
                 }
             }
-            for e in ippref::registry::STATUS {
-                if let Some(st) = StatusCode::from_u16(e.0 as u16) {
+            // every status the library has a symbol for (all 65536 codes are tried, so the placeholder for unknown codes is included)
+            for code in 0..=0xffffu32 {
+                if let Some(st) = StatusCode::from_u16(code as u16) {
                     for id in [0u32, 1, 77, u32::MAX] {
                         rep.eval();
                         rep.count("raw_response_constructor", 1);
                         let resp = IppRequestResponse::new_response(IppVersion::v1_1(), st, id);
                         let m = mirror::from_ipp_head(resp.header(), resp.attributes());
                         let names: Vec<&String> = m.groups.first().map(|g| g.attrs.keys().collect()).unwrap_or_default();
-                        if !(m.version == 0x0101 && m.code == e.0 as u16 && m.id == id && m.groups.len() == 1 && m.groups[0].tag == 1 && names.iter().map(|s| s.as_str()).collect::<Vec<_>>() == vec!["attributes-charset", "attributes-natural-language"]) {
+                        let wire_code = resp.to_bytes().get(2..4).map(|b| u16::from_be_bytes([b[0], b[1]]));
+                        if !(m.version == 0x0101 && m.code == code as u16 && wire_code == Some(code as u16) && resp.header().status_code() == st && m.id == id && m.groups.len() == 1 && m.groups[0].tag == 1 && names.iter().map(|s| s.as_str()).collect::<Vec<_>>() == vec!["attributes-charset", "attributes-natural-language"]) {
                             rep.violation("C10:raw-response-constructor", format!("new_response(1.1, {st:?}, {id}) gave {m:?}"), vec!["c10".into(), "--cases".into(), "0".into()]);
                         }
                     }
@@ -550,9 +552,13 @@ pub fn run_c10(args: &Args, tier: &str, seed: u64) -> Report {
 // =================================================================== C09
 
 // ordinary attributes, incl. case variants and near misses of the specially placed names (which are NOT special)
-const EXTRA_VOCAB: [&str; 17] = [
+const EXTRA_VOCAB: [&str; 40] = [
     "requesting-user-name", "document-format", "job-name", "compression", "ipp-attribute-fidelity", "document-name", "limit", "my-jobs", "which-jobs",
     "Job-Id", "JOB-ID", "Attributes-Charset", "Attributes-Natural-Language", "Printer-Uri", "job-ids", "printer-uri-supported", "Job-Uri",
+    // every other operation attribute RFC 8011 / PWG 5100.x name for requests and responses (none of them has a mandated position)
+    "status-message", "detailed-status-message", "document-access-error", "requested-attributes", "last-document", "message", "job-k-octets",
+    "job-impressions", "job-media-sheets", "document-natural-language", "document-uri", "first-index", "first-job-id", "job-state-reasons",
+    "notify-subscription-id", "notify-sequence-numbers", "purge-jobs", "job-hold-until", "printer-message-from-operator", "a", "z", "0", "~tilde",
 ];
 
 pub fn run_c09(args: &Args, tier: &str, seed: u64) -> Report {
